@@ -29,6 +29,8 @@ LEAN_TARGETS = ['IblVerif.Properties.C02']
 THEOREMS = [
     'IblVerif.C02.final_names_complete',
     'IblVerif.C02.source_outlives_replacement',
+    'IblVerif.C02.final_names_complete_after_rewrites',
+    'IblVerif.C02.compress_publishes_current_content',
     'IblVerif.C02.clean_directories_published',
     'IblVerif.C02.hdr_consistent',
     'IblVerif.C02.compress_failure_touches_only_tmp',
@@ -59,11 +61,14 @@ RULE = ('(1) file-system sequences: recording = metadata flavour (nidq with 1..3
         'in {1,2,3,16}; about half of the calls with an exception injected at a uniformly chosen chunk (mtscomp.Writer._compress_chunk / '
         'mtscomp.Reader._decompress_chunk). One comparison per call and per (state, entry point). Non-trivial: a fault fired or the '
         'recording has >= 2 chunks; distinct by (recording parameters, call prefix). '
+        'About 12 % of the steps of a sequence REPLACE x.bin by another version of the recording (same shape, other content) while earlier outputs (.cbin/.ch, .cbin_tmp, scratch .bin) stay on disk; the exhaustive box contains every call after [compress(keep), rewrite] and related prefixes. '
         '(2) reads: same recording family, compressed by compress_file; sample selectors: slices with start/stop from '
         '{None, 0, chunk bound +-1, ns +-1, their negatives, beyond the end, random}, step from {None, 1, 2, 3, chunk size +-1, > ns}, '
         'ints in [-ns, ns + 5]; channel selectors slice/int/list/strided; through x.cbin, and x.meta with only x.cbin present. '
         'Non-trivial: the selector touches >= 2 chunks or has a step > 1 or is negative; distinct by (recording, selector).')
 ASSUMPTIONS = [
+    'the content of x.bin may be REPLACED between calls (same ns/nc, other samples: an environment event `rewrite`), earlier outputs staying on disk; '
+    'the "current content" of the recording is what the last rewrite - or the last successful decompress_file - put into x.bin',
     'x.meta exists and is never touched; one chunk size per recording (compress_file is always called with the same chunk_duration)',
     'faults are exceptions raised inside mtscomp while chunk k is produced (not process crashes between two system calls, not failures of rename/unlink); '
     'with n_threads = T the chunks of one batch are produced before any is written, so (k // T) * T chunks have reached the file',
@@ -170,30 +175,49 @@ class Rec:
         txt, self.fs = _meta_text(p['flavour'], self.nc, self.ns)
         self.chunk_duration = self.cs / self.fs
         assert int(np.round(self.chunk_duration * self.fs)) == self.cs
-        rng = np.random.default_rng([int(p['seed']), 2])
-        D = rng.integers(-32768, 32768, size=(self.ns, self.nc), dtype=np.int16)
-        if self.ns <= 32767:
-            D[:, 0] = np.arange(self.ns, dtype=np.int16)      # row id in the first column: rows are unique and identifiable
-        self.D = D
         self.bounds = np.r_[0, np.cumsum(self.sizes)].astype(int)
-        self.raw_chunks = [D[a:b].tobytes() for a, b in zip(self.bounds[:-1], self.bounds[1:])]
-        assert len(set(self.raw_chunks)) == len(self.raw_chunks)
-        self.orig = D.tobytes()
-        # reference compressed chunks, produced by the dependency itself (not through the code under test)
-        ref = self.dir / 'ref'
-        ref.mkdir()
-        (ref / 'r.bin').write_bytes(self.orig)
-        mtscomp.compress(ref / 'r.bin', out=ref / 'r.cbin', outmeta=ref / 'r.ch', sample_rate=self.fs, n_channels=self.nc,
-                         dtype=np.int16, chunk_duration=self.chunk_duration, n_threads=1)
-        self.ref_ch = json.loads((ref / 'r.ch').read_text())
-        assert self.ref_ch['chunk_bounds'] == [int(x) for x in self.bounds]
-        cb = (ref / 'r.cbin').read_bytes()
-        off = self.ref_ch['chunk_offsets']
-        self.comp_chunks = [cb[a:b] for a, b in zip(off[:-1], off[1:])]
-        self.ref_cbin = cb
-        shutil.rmtree(ref)
+        self.ver = {}
+        v0 = self.ensure_version(0)
+        self.D, self.raw_chunks, self.comp_chunks = v0['D'], v0['raw'], v0['comp']
+        self.orig, self.ref_cbin, self.ref_ch = v0['bytes'], v0['cbin'], v0['ch']
         (self.dir / (self.stem + '.meta')).write_text(txt)
         self.meta_text = txt
+
+    def ensure_version(self, v):
+        """Version v of the recording: same shape, other samples (v = 0 is the initial content).  Chunk ids of version v
+        are 100 v + i (uncompressed) and 1000 + 100 v + i (compressed)."""
+        import mtscomp
+        if v in self.ver:
+            return self.ver[v]
+        rng = np.random.default_rng([int(self.p['seed']), 2, int(v)])
+        D = rng.integers(-32768, 32768, size=(self.ns, self.nc), dtype=np.int16)
+        if self.ns <= 32767:
+            D[:, 0] = np.arange(self.ns, dtype=np.int16)      # row id in the first column: rows are identifiable
+            if self.nc == 1 and v:
+                D[:, 0] = np.arange(self.ns, dtype=np.int16) + np.int16(1000 * v)   # keep single-column versions distinct
+        raw = [D[a:b].tobytes() for a, b in zip(self.bounds[:-1], self.bounds[1:])]
+        assert len(set(raw)) == len(raw)
+        # reference compressed chunks, produced by the dependency itself (not through the code under test)
+        ref = self.dir / f'ref{v}'
+        ref.mkdir()
+        (ref / 'r.bin').write_bytes(D.tobytes())
+        with _pool('serial'):
+            mtscomp.compress(ref / 'r.bin', out=ref / 'r.cbin', outmeta=ref / 'r.ch', sample_rate=self.fs, n_channels=self.nc,
+                             dtype=np.int16, chunk_duration=self.chunk_duration, n_threads=1)
+        ch = json.loads((ref / 'r.ch').read_text())
+        assert ch['chunk_bounds'] == [int(x) for x in self.bounds]
+        cb = (ref / 'r.cbin').read_bytes()
+        off = ch['chunk_offsets']
+        comp = [cb[a:b] for a, b in zip(off[:-1], off[1:])]
+        shutil.rmtree(ref)
+        for w in self.ver.values():
+            assert not (set(w['raw']) & set(raw)), 'versions must not share chunks'
+        self.ver[v] = {'D': D, 'raw': raw, 'comp': comp, 'bytes': D.tobytes(), 'cbin': cb, 'ch': ch}
+        return self.ver[v]
+
+    def rewrite(self, v):
+        """The environment replaces x.bin by version v (same ns, same nc)."""
+        self.path('bin').write_bytes(self.ensure_version(v)['bytes'])
 
     # -- paths
     def path(self, name):
@@ -204,13 +228,14 @@ class Rec:
              'smeta': self.scratch / (self.stem + '.meta')}
         return d[name]
 
-    def header_for(self, k):
-        """The .ch mtscomp writes for the first k chunks."""
-        h = dict(self.ref_ch)
+    def header_for(self, k, v=0):
+        """The .ch mtscomp writes for the first k chunks of version v."""
+        w = self.ver[v]
+        h = dict(w['ch'])
         h['chunk_bounds'] = [int(x) for x in self.bounds[:k + 1]]
-        h['chunk_offsets'] = [int(x) for x in np.r_[0, np.cumsum([len(c) for c in self.comp_chunks[:k]])]]
-        h['sha1_compressed'] = hashlib.sha1(b''.join(self.comp_chunks[:k])).hexdigest()
-        h['sha1_uncompressed'] = hashlib.sha1(b''.join(self.raw_chunks[:k])).hexdigest()
+        h['chunk_offsets'] = [int(x) for x in np.r_[0, np.cumsum([len(c) for c in w['comp'][:k]])]]
+        h['sha1_compressed'] = hashlib.sha1(b''.join(w['comp'][:k])).hexdigest()
+        h['sha1_uncompressed'] = hashlib.sha1(b''.join(w['raw'][:k])).hexdigest()
         h['shape'] = [int(self.bounds[k]), self.nc]
         return h
 
@@ -240,14 +265,13 @@ class Rec:
         if len(b) == 0:
             return 'e'
         ids, pos = [], 0
-        lookup = {c: i for i, c in enumerate(self.raw_chunks)}
+        cands = [(100 * v + i, c) for v, w in sorted(self.ver.items()) for i, c in enumerate(w['raw'])]
         while pos < len(b):
-            for i, c in enumerate(self.raw_chunks):
+            for i, c in cands:
                 if b.startswith(c, pos):
                     ids.append(i); pos += len(c); break
             else:
                 return '?' + '.'.join(map(str, ids)) + f'+{len(b) - pos}B'
-        del lookup
         return '.'.join(map(str, ids))
 
     def _classify_comp(self, b):
@@ -256,10 +280,11 @@ class Rec:
         if len(b) == 0:
             return 'e'
         ids, pos = [], 0
+        cands = [(1000 + 100 * v + i, c) for v, w in sorted(self.ver.items()) for i, c in enumerate(w['comp'])]
         while pos < len(b):
-            for i, c in enumerate(self.comp_chunks):
+            for i, c in cands:
                 if b.startswith(c, pos):
-                    ids.append(1000 + i); pos += len(c); break
+                    ids.append(i); pos += len(c); break
             else:
                 return '?' + '.'.join(map(str, ids)) + f'+{len(b) - pos}B'
         return '.'.join(map(str, ids))
@@ -271,9 +296,10 @@ class Rec:
             h = json.loads(b.decode())
         except Exception:
             return '?json'
-        for k in range(len(self.sizes) + 1):
-            if h == self.header_for(k):
-                return '.'.join(str(1000 + i) for i in range(k)) if k else 'e'
+        for v in sorted(self.ver):
+            for k in range(len(self.sizes) + 1):
+                if h == self.header_for(k, v):
+                    return '.'.join(str(1000 + 100 * v + i) for i in range(k)) if k else 'e'
         return '?hdr'
 
     def state_string(self, snap=None):
@@ -553,9 +579,13 @@ def _run_fs_case_inner(case, rng, n_ops, hook):
         generate = rng is not None
         ops = [] if generate else case['ops']
         pool = []
+        state = {'rewrites': 0}
         i = 0
         while (generate and i < n_ops) or (not generate and i < len(ops)):
-            if generate:
+            if generate and rng.random() < 0.12:
+                op = {'op': 'rewrite', 'v': int(rng.choice([1, 1, 2, 2, 0]))}
+                ops.append(op)
+            elif generate:
                 who = _pick_reader(rng, eng, len(pool))
                 if who.startswith('old'):
                     fb_guess = _suffix_name(pool[int(who[4:])].file_bin)
@@ -569,6 +599,18 @@ def _run_fs_case_inner(case, rng, n_ops, hook):
             else:
                 op = ops[i]
             i += 1
+            if op['op'] == 'rewrite':
+                # the environment replaces x.bin (same shape, other content); earlier outputs stay where they are
+                before = rec.snapshot() if hook else None
+                rec.rewrite(op['v'])
+                after = rec.snapshot()
+                info = {'kind': 'rewrite', 'op': op, 'i': i - 1}
+                out.append((f"rewrite {op['v']} {n}", f'rewritten | {rec.state_string(after)}', info))
+                state['rewrites'] += 1
+                if hook:
+                    hook(eng, info, before, after, None)
+                opens()
+                continue
             how, what = op['reader'].split(':')
             if how == 'new':
                 res, sr = eng.open_entry(what)
@@ -589,9 +631,10 @@ def _run_fs_case_inner(case, rng, n_ops, hook):
             op.pop('skipped', None)
             before = rec.snapshot() if hook else None
             fb_before = _suffix_name(sr.file_bin)
+            stale_outputs = _stale_outputs(rec)
             outcome, fb_after, line, fired = eng.call(sr, op)
             info = {'kind': 'call', 'op': op, 'fired': fired, 'stale': stale, 'outcome': outcome, 'fb_before': fb_before,
-                    'fb_after': fb_after, 'i': i - 1}
+                    'fb_after': fb_after, 'i': i - 1, 'rewrites': state['rewrites'], 'stale_outputs': stale_outputs}
             after = rec.snapshot()
             extra = rec.extra_files()
             ans = f'{outcome} fb={fb_after} | {rec.state_string(after)}' + (f' extra={extra}' if extra else '')
@@ -604,6 +647,24 @@ def _run_fs_case_inner(case, rng, n_ops, hook):
         return out
     finally:
         eng.close()
+
+
+def _stale_outputs(rec):
+    """x.bin present together with an earlier output (.cbin / scratch .bin) that holds ANOTHER version of the recording."""
+    pb = rec.path('bin')
+    if not pb.exists() or pb.stat().st_size == 0:
+        return False
+    cur = pb.read_bytes()
+    vb = [v for v, w in rec.ver.items() if cur.startswith(w['raw'][0])]
+    if not vb:
+        return False
+    for nm, key in (('cbin', 'comp'), ('sbin', 'raw')):
+        q = rec.path(nm)
+        if q.exists() and q.stat().st_size:
+            other = q.read_bytes()
+            if not other.startswith(rec.ver[vb[0]][key][0]):
+                return True
+    return False
 
 
 def _nc_tag(nc):
@@ -636,27 +697,38 @@ def _all_ops(n):
 
 
 def _state_makers():
-    """First calls that produce the distinct interesting directories (both files, compressed only, torn .bin, partial temporaries, scratch copy)."""
-    return [{'op': 'compress', 'k': None, 'keep': True, 'T': 1, 'reader': 'new:meta'},
-            {'op': 'compress', 'k': None, 'keep': False, 'T': 1, 'reader': 'new:meta'},
-            {'op': 'compress', 'k': 1, 'keep': False, 'T': 1, 'reader': 'new:meta'},
-            {'op': 'decompress', 'k': 1, 'keep': True, 'overwrite': True, 'T': 1, 'reader': 'new:cbin'},
-            {'op': 'decompress', 'k': None, 'keep': False, 'overwrite': True, 'T': 1, 'reader': 'new:cbin'},
-            {'op': 'toscratch', 'k': None, 'scratch': True, 'reader': 'new:cbin'},
-            {'op': 'toscratch', 'k': 1, 'scratch': False, 'reader': 'new:cbin'},
-            {'op': 'toscratch', 'k': 1, 'scratch': True, 'reader': 'new:cbin'}]
+    """Call prefixes that produce the distinct interesting directories (both files, compressed only, torn .bin, partial
+    temporaries, scratch copy) — and histories in which x.bin is REPLACED while earlier outputs are still present."""
+    cK = {'op': 'compress', 'k': None, 'keep': True, 'T': 1, 'reader': 'new:meta'}
+    return [[cK],
+            [{'op': 'compress', 'k': None, 'keep': False, 'T': 1, 'reader': 'new:meta'}],
+            [{'op': 'compress', 'k': 1, 'keep': False, 'T': 1, 'reader': 'new:meta'}],
+            [{'op': 'decompress', 'k': 1, 'keep': True, 'overwrite': True, 'T': 1, 'reader': 'new:cbin'}],
+            [{'op': 'decompress', 'k': None, 'keep': False, 'overwrite': True, 'T': 1, 'reader': 'new:cbin'}],
+            [{'op': 'toscratch', 'k': None, 'scratch': True, 'reader': 'new:cbin'}],
+            [{'op': 'toscratch', 'k': 1, 'scratch': False, 'reader': 'new:cbin'}],
+            [{'op': 'toscratch', 'k': 1, 'scratch': True, 'reader': 'new:cbin'}]] + _rewrite_prefixes()
 
 
-def _exhaustive_cases(rp, depth):
+def _rewrite_prefixes():
+    cK = {'op': 'compress', 'k': None, 'keep': True, 'T': 1, 'reader': 'new:meta'}
+    rw = {'op': 'rewrite', 'v': 1}
+    return [[cK, rw],                                                                        # stale complete .cbin/.ch
+            [cK, {'op': 'toscratch', 'k': None, 'scratch': True, 'reader': 'new:cbin'}, rw],   # + stale scratch copy
+            [{'op': 'compress', 'k': 1, 'keep': True, 'T': 1, 'reader': 'new:meta'}, rw],     # stale partial .cbin_tmp
+            [rw]]
+
+
+def _exhaustive_cases(rp, depth, inits=('bin', 'cbin', 'both')):
+    """depth 1: every single call; depth 2: every call after every state-making prefix; depth 'rw': every call after
+    every prefix that replaces x.bin."""
     n = len(rp['sizes'])
     out = []
-    for init in ('bin', 'cbin', 'both'):
+    prefixes = [[]] if depth == 1 else _state_makers() if depth == 2 else _rewrite_prefixes()
+    for init in inits:
         for op in _all_ops(n):
-            if depth == 1:
-                out.append({'rec': rp, 'init': init, 'tdef': 1, 'ops': [dict(op)]})
-            else:
-                for first in _state_makers():
-                    out.append({'rec': rp, 'init': init, 'tdef': 1, 'ops': [dict(first), dict(op)]})
+            for pre in prefixes:
+                out.append({'rec': rp, 'init': init, 'tdef': 1, 'ops': [dict(o) for o in pre] + [dict(op)]})
     return out
 
 
@@ -677,7 +749,7 @@ def correspondence_fs(ctx, count):
     # exhaustive box: every single call (quick) / every pair (state maker, call) (thorough) on a small recording
     box = {'flavour': 'nidq', 'nc': int(ctx.rng.choice([1, 2, 3])), 'cs': 8, 'sizes': [8, 5] if ctx.quick else [8, 8, 5],
            'seed': int(ctx.rng.integers(0, 2 ** 31))}
-    ex = _exhaustive_cases(box, 1) + ([] if ctx.quick else _exhaustive_cases(box, 2))
+    ex = _exhaustive_cases(box, 1) + (_exhaustive_cases(box, 'rw', inits=('bin',))[::2] if ctx.quick else _exhaustive_cases(box, 2))
     for case in ex:
         for line, ans, info in _run_fs_case(case):
             if info['kind'] != 'open' or not ctx.quick or True:
@@ -690,6 +762,8 @@ def correspondence_fs(ctx, count):
         nch = len(rp['sizes'])
         if info['kind'] == 'init':
             ctx.compare('init', {'fs': _case_desc(case, -1), 'line': line}, a, m, nontrivial=False, tags=('fs:init', 'init=' + case['init']))
+        elif info['kind'] == 'rewrite':
+            ctx.compare('rewrite', {'fs': _case_desc(case, info['i'])}, a, m, nontrivial=True, tags=('fs:rewrite',))
         elif info['kind'] == 'open':
             ctx.compare('open', {'fs': _case_desc(case), 'after': line, 'n': len(lines)}, a, m, nontrivial=False,
                         tags=('fs:open', 'open:' + a.split(' rec=')[0]))
@@ -702,11 +776,16 @@ def correspondence_fs(ctx, count):
                     'init=' + case['init'], 'pool=' + case.get('pool', 'serial')]
             if info.get('box'):
                 tags.append('exhaustive_box')
+            if info.get('rewrites'):
+                tags.append('after_rewrite_of_bin')
+            if info.get('stale_outputs'):
+                tags.append('stale_cbin_or_scratch_present')
             if 'keep' in op:
                 tags.append(f"keep={op['keep']}")
             if op['op'] == 'toscratch':
                 tags.append(f"scratch_dir={op['scratch']}")
-            ctx.compare(op['op'], {'fs': _case_desc(case, info['i'])}, a, m, nontrivial=(info['fired'] or nch >= 2), tags=tuple(tags))
+            ctx.compare(op['op'], {'fs': _case_desc(case, info['i'])}, a, m,
+                        nontrivial=(info['fired'] or nch >= 2 or bool(info.get('stale_outputs'))), tags=tuple(tags))
 
 
 # ---------------------------------------------------------------------------------------------
@@ -976,15 +1055,47 @@ def _decode(rec, cbin, ch):
         shutil.rmtree(d, ignore_errors=True)
 
 
+def _same_reads(rec):
+    """x.bin and x.cbin both present: the two readers must be indistinguishable (shape, values for a few selectors)."""
+    import spikeglx
+    rs = []
+    try:
+        sb = spikeglx.Reader(rec.path('bin')); rs.append(sb)
+        sc = spikeglx.Reader(rec.path('cbin')); rs.append(sc)
+        if tuple(sb.shape) != tuple(sc.shape):
+            return f'the compressed reader has shape {tuple(sc.shape)}, the uncompressed one {tuple(sb.shape)}'
+        for sel in (slice(None), slice(1, None, 3), 0, -1):
+            a, b = _digest(lambda: sc[sel, :]), _digest(lambda: sb[sel, :])
+            if a != b:
+                return f'sr[{sel}, :] through x.cbin ({a}) differs from the same read through x.bin ({b})'
+        return None
+    except Exception as e:   # noqa
+        return f'opening x.bin and x.cbin side by side raised {type(e).__name__}: {e}'
+    finally:
+        for r in rs:
+            try:
+                r.close()
+            except Exception:
+                pass
+
+
 def oracle_fs(case):
     """C02, file-system part, asserted directly on disk.  Returns None or a description of the first violation."""
     viol = []
-    state = {'plain_fault': False}
+    state = {'plain_fault': False, 'cur': None, 'versions': []}
 
     def hook(eng, info, B, A, sr):
         if viol:
             return
         rec = eng.rec
+        if state['cur'] is None:
+            state['cur'] = rec.orig               # every initial directory holds version 0 (as .bin and/or .cbin)
+            state['versions'] = [rec.orig]
+        if info['kind'] == 'rewrite':
+            # the environment replaced x.bin: this is now the current content of the recording
+            state['cur'] = A['bin']
+            state['versions'].append(A['bin'])
+            return
         op, ok = info['op'], info['outcome'].startswith('ok')
         kind = op['op']
         where = f"call #{info['i']} {kind}"
@@ -1011,7 +1122,13 @@ def oracle_fs(case):
                                 f'.cbin {None if A["cbin"] is None else len(A["cbin"])} bytes (complete would be {len(rec.ref_cbin)})')
             else:
                 if _decode(rec, A['cbin'], A['ch']) != B['bin']:
-                    viol.append(f'{where} succeeded but .cbin/.ch do not decode to the bytes of the source .bin')
+                    stale = _decode(rec, A['cbin'], A['ch']) in [v for v in state['versions'] if v != B['bin']]
+                    viol.append(f'{where} succeeded but .cbin/.ch do not decode to the CURRENT bytes of the source .bin'
+                                + (' (they decode to an EARLIER content of x.bin: a stale compressed copy was kept)' if stale else ''))
+                elif op['keep'] and not viol:
+                    w = _same_reads(rec)
+                    if w:
+                        viol.append(f'{where} succeeded but {w}')
                 if op['keep'] and A['bin'] != B['bin']:
                     viol.append(f'{where}(keep_original=True) modified/removed the source')
                 if not op['keep'] and (A['bin'] is not None or info['fb_after'] != 'cbin'):
@@ -1039,6 +1156,7 @@ def oracle_fs(case):
                     state['plain_fault'] = True
             else:
                 dec = _decode(rec, B['cbin'], B['ch'])
+                state['cur'] = A['bin']           # x.bin was (re)written from the compressed file on request
                 if A['bin'] != dec:
                     viol.append(f'{where} succeeded but .bin is not byte for byte what the compressed file decodes to')
                 if op['keep'] and (A['cbin'] != B['cbin'] or A['ch'] != B['ch']):
@@ -1049,13 +1167,17 @@ def oracle_fs(case):
                 viol.append(f'{where}: the compressed source was removed although its replacement is not complete')
         # global statement, as long as no fault hit the (non-atomic) plain decompress_file
         if not state['plain_fault'] and not viol:
-            if A['cbin'] is not None and _decode(rec, A['cbin'], A['ch']) != rec.orig:
-                viol.append(f'after {where}: a .cbin exists that is not the complete recording')
-            for nm in ('bin', 'sbin'):
-                if A[nm] is not None and A[nm] != rec.orig:
-                    viol.append(f'after {where}: {nm} exists ({len(A[nm])} bytes) and is not the complete recording ({len(rec.orig)} bytes)')
-            if A['bin'] != rec.orig and _decode(rec, A['cbin'], A['ch']) != rec.orig:
-                viol.append(f'after {where}: the recording is no longer held by any complete file')
+            cur = state['cur']
+            if A['cbin'] is not None and _decode(rec, A['cbin'], A['ch']) not in state['versions']:
+                viol.append(f'after {where}: a .cbin exists that is not a complete image of the recording')
+            if A['bin'] is not None and A['bin'] != cur:
+                viol.append(f'after {where}: x.bin exists ({len(A["bin"])} bytes) and is not the complete current recording ({len(cur)} bytes)')
+            if A['sbin'] is not None and A['sbin'] not in state['versions']:
+                viol.append(f'after {where}: scratch x.bin exists ({len(A["sbin"])} bytes) and is not a complete recording ({len(cur)} bytes)')
+            if A['bin'] != cur and _decode(rec, A['cbin'], A['ch']) != cur:
+                viol.append(f'after {where}: the CURRENT content of the recording is no longer held by any complete file'
+                            + (' (x.bin was removed while the compressed file holds an earlier content)'
+                               if _decode(rec, A['cbin'], A['ch']) in state['versions'] else ''))
             # path resolution: the metadata entry point finds the recording and it reads as the original
             import spikeglx
             try:
@@ -1065,8 +1187,8 @@ def oracle_fs(case):
                         viol.append(f'after {where}: Reader(x.meta) resolved no data file although one exists')
                     else:
                         got = np.asarray(sm._raw[:, :]).astype(np.int16).tobytes()
-                        if got != rec.orig:
-                            viol.append(f'after {where}: Reader(x.meta) (-> {sm.file_bin.name}) does not read the original recording')
+                        if got != cur:
+                            viol.append(f'after {where}: Reader(x.meta) (-> {sm.file_bin.name}) does not read the current content of the recording')
                 finally:
                     sm.close()
             except Exception as e:   # noqa
@@ -1141,7 +1263,7 @@ def _shrink_fs(case):
             best, why = cp(c), w
             break
     for i, o in enumerate(best['ops']):
-        if o['reader'].startswith('old'):
+        if o.get('reader', '').startswith('old'):
             for e in ('bin', 'cbin', 'meta'):
                 ops = [dict(x) for x in best['ops']]
                 ops[i]['reader'] = 'new:' + e
@@ -1152,7 +1274,7 @@ def _shrink_fs(case):
     changed = True
     while changed and len(best['ops']) > 1:
         changed = False
-        if any(o['reader'].startswith('old') for o in best['ops']):
+        if any(o.get('reader', '').startswith('old') for o in best['ops']):
             break
         for i in range(len(best['ops']) - 1):
             c = cp(best, ops=[o for j, o in enumerate(best['ops']) if j != i])
@@ -1208,7 +1330,8 @@ def search(ctx, reasons):
                 break
     if best is None:
         for nc in (1, 2):
-            for case in _exhaustive_cases({'flavour': 'nidq', 'nc': nc, 'cs': 8, 'sizes': [8, 5], 'seed': 1}, 1):
+            small = {'flavour': 'nidq', 'nc': nc, 'cs': 8, 'sizes': [8, 5], 'seed': 1}
+            for case in _exhaustive_cases(small, 1) + _exhaustive_cases(small, 'rw', inits=('bin', 'both')):
                 if oracle_fs(case):
                     r = _shrink_fs(case)
                     if r:
